@@ -25,6 +25,7 @@ import (
 
 	"rcproxy/core"
 	"rcproxy/core/codec"
+	"rcproxy/core/pkg/constant"
 	"rcproxy/core/pkg/hashkit"
 )
 
@@ -290,6 +291,17 @@ type simBackendState struct {
 	cmds     [][][]byte // commands received, in order
 	answered int        // number of commands answered
 	closed   bool
+	half     *halfReply // the first part of the reply to cmds[answered] is on the wire, the rest is not
+	wireChk  int        // commands on the wire already compared with what was queued (C02 / C06)
+	enqChk   int        // position in r.enq up to which queued entries were matched
+}
+
+// a reply cut across two read events of the proxy
+type halfReply struct {
+	cmd       [][]byte
+	reply     []byte
+	cut       int
+	kind, arg string
 }
 
 type simRun struct {
@@ -356,18 +368,66 @@ func newSimRun(cfg simCfg, topo *simTopo) (*simRun, error) {
 // refreshBackends parses what each backend has received into commands.
 func (r *simRun) refreshBackends() {
 	r.env.drainAll()
-	for _, b := range r.backends {
+	for j, b := range r.backends {
 		for b.parsed < len(b.peer.recv) {
 			args, n, err := strictParse(b.peer.recv[b.parsed:])
 			if err != nil {
 				if err == errProtocol {
 					r.fail("C12: backend %s received bytes that are not a well-formed command: %q", b.peer.addr, b.peer.recv[b.parsed:])
+					for k := b.enqChk; k < len(r.enq); k++ {
+						if r.enq[k].backend == j {
+							r.fail("C02: node %s received %q where %q had been queued for that connection: the forwarded bytes are not the request", b.peer.addr, clip(b.peer.recv[b.parsed:]), clip(r.enq[k].req))
+							break
+						}
+					}
 					b.parsed = len(b.peer.recv)
 				}
 				break
 			}
 			b.cmds = append(b.cmds, args)
 			b.parsed += n
+		}
+	}
+	r.checkWire()
+}
+
+// checkWire (C02 / C06): what a node receives is what was queued for it. The recording connection wrapper copied
+// the bytes of every fragment when it was queued; every command on the wire (handshake aside) must be the next -
+// or, when queued entries were dropped unwritten, a later - queued entry of that connection, byte for byte.
+func (r *simRun) checkWire() {
+	for j, b := range r.backends {
+		for ; b.wireChk < len(b.cmds); b.wireChk++ {
+			cmd := b.cmds[b.wireChk]
+			name := string(lowerASCII(cmd[0]))
+			if name == "auth" || name == "readonly" || name == "cluster" {
+				continue
+			}
+			found := false
+			for k := b.enqChk; k < len(r.enq); k++ {
+				e := r.enq[k]
+				if e.backend != j {
+					continue
+				}
+				if args, _, err := strictParse(e.req); err == nil && sameCmd(args, cmd) {
+					b.enqChk = k + 1
+					found = true
+					break
+				}
+			}
+			if !found {
+				pid := "C02"
+				if name == "mget" || name == "del" || name == "mset" {
+					pid = "C06"
+				}
+				var queued []string
+				for _, e := range r.enq {
+					if e.backend == j {
+						queued = append(queued, clipStr(string(e.req), 60))
+					}
+				}
+				r.fail("%s: node %s received %q on connection %d, which is not (or not again) among the requests queued for that connection %q: the bytes were altered between queueing and writing", pid, b.peer.addr, clip(encodeCmd(cmd)), j, queued)
+				return
+			}
 		}
 	}
 }
@@ -519,9 +579,105 @@ func (r *simRun) clientEvent(ci int, data []byte) {
 		}
 	}
 	var choices []string
+	// Which request dialled which NEW connection. New connections appear in r.backends in dial order. An accepted
+	// request shows its targets (the recorded enqueues); a rejected multi-slot request shows nothing, but the slots
+	// it visited before the failing one dialled connections too, and the connection numbering of everything that
+	// follows depends on that order. So: claimedAt[b] = the first use of the new connection b by an accepted request
+	// (position in newReqs, then position among that request's enqueues: a request dials in the order it enqueues);
+	// b was dialled no later than every connection created after it, i.e. by
+	// U(b) = min over b' >= b of claimedAt[b']. If its own first use is that early, the claimer dialled it (or an earlier
+	// rejected request did, which numbers the same); otherwise a rejected request before U(b) did.
+	const never = 1 << 40
+	const perReq = 1 << 20
+	nNew := len(r.backends) - nb0
+	claimedAt := make([]int, nNew)
+	for k := range claimedAt {
+		claimedAt[k] = never
+	}
+	{
+		gi := 0
+		for pos, q := range newReqs {
+			if q.local {
+				continue
+			}
+			if ok, _, _ := r.routable(q); !ok {
+				continue
+			}
+			if gi < len(groups) {
+				for ei, e := range groups[gi] {
+					if e.backend >= nb0 && claimedAt[e.backend-nb0] == never {
+						claimedAt[e.backend-nb0] = pos*perReq + ei
+					}
+				}
+			}
+			gi++
+		}
+	}
+	upper := make([]int, nNew+1)
+	upper[nNew] = never
+	for k := nNew - 1; k >= 0; k-- {
+		upper[k] = upper[k+1]
+		if claimedAt[k] < upper[k] {
+			upper[k] = claimedAt[k]
+		}
+	}
+	// rejected requests: the slots they can have dialled for, filled in dial order
+	type rejInfo struct {
+		used map[int]bool
+		vs   []string
+	}
+	rej := map[int]*rejInfo{}
+	canDial := func(q *simReq, used map[int]bool, addr string) (int, bool) {
+		masterOnly := r.cfg.noslave || q.typ > codec.ReqWriteCmdStart || q.typ == codec.ReqHscan || q.typ == codec.ReqSscan || q.typ == codec.ReqZscan
+		for _, k := range q.keys {
+			s := int(hashkit.Hash(string(k)))
+			if used[s] {
+				continue
+			}
+			m, sl, _ := r.topo.owner(s)
+			live := false
+			for _, a := range sl {
+				if r.topo.hasPool(a) {
+					live = true
+				}
+			}
+			if (m == addr && (masterOnly || !live)) || (!masterOnly && containsStr(sl, addr)) {
+				return s, true
+			}
+		}
+		return 0, false
+	}
+	lower := 0
+	for k := 0; k < nNew; k++ {
+		if claimedAt[k] != never && claimedAt[k] <= upper[k] {
+			lower = claimedAt[k] / perReq // dialled by the accepted request that uses it first
+			continue
+		}
+		// dialled by a rejected request at a position in [lower, upper[k]): the first one that can have been routed there
+		for pos := lower; pos < len(newReqs) && pos*perReq < upper[k]; pos++ {
+			q := newReqs[pos]
+			if q.local {
+				continue
+			}
+			ok, fs, _ := r.routable(q)
+			if ok {
+				continue
+			}
+			ri := rej[pos]
+			if ri == nil {
+				ri = &rejInfo{used: map[int]bool{fs: true}} // a slot is visited once per request; the failing slot dialled nothing
+				rej[pos] = ri
+			}
+			if s, can := canDial(q, ri.used, r.backends[nb0+k].peer.addr); can {
+				ri.vs = append(ri.vs, fmt.Sprintf("%d@%s", s, hx([]byte(r.backends[nb0+k].peer.addr))))
+				ri.used[s] = true
+				lower = pos
+				break
+			}
+		}
+	}
 	gi := 0
-	attributed := map[int]bool{}
-	for _, q := range newReqs {
+	for pos, q := range newReqs {
 		if q.local {
 			continue
 		}
@@ -541,36 +697,11 @@ func (r *simRun) clientEvent(ci int, data []byte) {
 		} else {
 			q.rejected = true
 			q.local = true
-			// slots visited before the failing one only matter when they dialled a new connection
 			var vs []string
-			for _, e := range r.enq[enq0:] {
-				attributed[e.backend] = true // dialled for a request that was accepted in this event
-			}
-			masterOnly := r.cfg.noslave || q.typ > codec.ReqWriteCmdStart || q.typ == codec.ReqHscan || q.typ == codec.ReqSscan || q.typ == codec.ReqZscan
-			usedSlots := map[int]bool{fs: true} // a slot is visited once per request; the failing slot dialled nothing
-			for bi, nb := range r.backends[nb0:] {
-				if attributed[nb0+bi] {
-					continue
-				}
-				for _, k := range q.keys {
-					s := int(hashkit.Hash(string(k)))
-					if usedSlots[s] {
-						continue
-					}
-					m, sl, _ := r.topo.owner(s)
-					// the connection was dialled by the first rejected request that can have been routed there
-					live := false
-					for _, a := range sl {
-						if r.topo.hasPool(a) {
-							live = true
-						}
-					}
-					if (m == nb.peer.addr && (masterOnly || !live)) || (!masterOnly && containsStr(sl, nb.peer.addr)) {
-						vs = append(vs, fmt.Sprintf("%d@%s", s, hx([]byte(nb.peer.addr))))
-						attributed[nb0+bi] = true
-						usedSlots[s] = true
-						break
-					}
+			if ri := rej[pos]; ri != nil {
+				vs = ri.vs
+				if len(vs) > 0 {
+					r.tags["rejected-request-dialled"] = true
 				}
 			}
 			vs = append(vs, fmt.Sprintf("%d@%s", fs, hx([]byte(fa))))
@@ -595,6 +726,10 @@ func containsStr(l []string, s string) bool {
 
 // backendEvent answers the oldest pending command on backend j.
 func (r *simRun) backendEvent(j int, kind string, arg string) {
+	if r.backends[j].half != nil {
+		r.finishHalf(j)
+		return
+	}
 	if reply := r.backendReply(j, kind, arg); reply != nil {
 		b := r.backends[j]
 		if err := r.env.Feed(b.peer, reply); err != nil {
@@ -610,6 +745,10 @@ func (r *simRun) backendEvent(j int, kind string, arg string) {
 // backendBatch answers the next k pending commands of backend j normally, all in ONE read event of the proxy
 // (replies for different requests - possibly of different clients - arriving in one chunk)
 func (r *simRun) backendBatch(j, k int) {
+	if r.backends[j].half != nil {
+		r.finishHalf(j)
+		return
+	}
 	var all []byte
 	for i := 0; i < k; i++ {
 		reply := r.backendReply(j, "ok", "")
@@ -630,11 +769,72 @@ func (r *simRun) backendBatch(j, k int) {
 
 // backendReply computes (and accounts for) the reply to the oldest pending command on backend j; nil = nothing to answer
 func (r *simRun) backendReply(j int, kind string, arg string) []byte {
+	cmd, reply, kind := r.prepareReply(j, kind, arg)
+	if reply == nil {
+		return nil
+	}
+	r.commitReply(j, cmd, kind, arg, reply)
+	return reply
+}
+
+// halfEvent: the node starts answering its oldest pending command but only the first part of the reply arrives
+// in this read event of the proxy (the rest comes with `f`, or never if the connection is lost first)
+func (r *simRun) halfEvent(j int, cutSeed int, kind string, arg string) {
+	b := r.backends[j]
+	if b.half != nil {
+		r.finishHalf(j)
+		return
+	}
+	if kind == "big" {
+		r.backendEvent(j, kind, arg)
+		return
+	}
+	cmd, reply, kind := r.prepareReply(j, kind, arg)
+	if reply == nil {
+		return
+	}
+	if len(reply) < 2 {
+		r.commitReply(j, cmd, kind, arg, reply)
+		_ = r.env.Feed(b.peer, reply)
+		r.model = append(r.model, fmt.Sprintf("S %d %s", j, hx(reply)))
+		return
+	}
+	cut := 1 + cutSeed%(len(reply)-1)
+	b.half = &halfReply{cmd: cmd, reply: reply, cut: cut, kind: kind, arg: arg}
+	r.tags["reply-cut-across-reads"] = true
+	if err := r.env.Feed(b.peer, reply[:cut]); err != nil {
+		r.tags["feed-error"] = true
+	}
+	r.model = append(r.model, fmt.Sprintf("S %d %s", j, hx(reply[:cut])))
+}
+
+// finishHalf: the rest of a reply whose first part is already with the proxy
+func (r *simRun) finishHalf(j int) {
+	b := r.backends[j]
+	h := b.half
+	b.half = nil
+	if h == nil || b.closed || !b.peer.vc.Opened() {
+		return
+	}
+	r.commitReply(j, h.cmd, h.kind, h.arg, h.reply)
+	r.tags["reply-completed-later"] = true
+	if err := r.env.Feed(b.peer, h.reply[h.cut:]); err != nil {
+		r.tags["feed-error"] = true
+		if h.kind == "err" {
+			r.fail("C11: the event loop returned %v on the ordinary error reply %q of a node: the proxy would shut down instead of relaying the error", err, clip(h.reply))
+		}
+	}
+	r.model = append(r.model, fmt.Sprintf("S %d %s", j, hx(h.reply[h.cut:])))
+}
+
+// prepareReply computes the reply to the oldest pending command on backend j without accounting for it;
+// nil = nothing to answer
+func (r *simRun) prepareReply(j int, kind string, arg string) ([][]byte, []byte, string) {
 	r.refreshBackends()
 	b := r.backends[j]
 	if b.answered >= len(b.cmds) || b.closed || !b.peer.vc.Opened() {
 		r.tags["backend-noop"] = true
-		return nil
+		return nil, nil, kind
 	}
 	cmd := b.cmds[b.answered]
 	name := string(lowerASCII(cmd[0]))
@@ -678,6 +878,12 @@ func (r *simRun) backendReply(j int, kind string, arg string) []byte {
 	default:
 		reply = fakeReply(cmd)
 	}
+	return cmd, reply, kind
+}
+
+// commitReply accounts for a reply that is (about to be) completely delivered to the proxy
+func (r *simRun) commitReply(j int, cmd [][]byte, kind string, arg string, reply []byte) {
+	b := r.backends[j]
 	b.answered++
 	r.tags["reply:"+kind] = true
 	if kind == "moved" || kind == "ask" {
@@ -701,7 +907,6 @@ func (r *simRun) backendReply(j int, kind string, arg string) []byte {
 		}
 	}
 	r.noteAnswered(j, cmd, kind, reply)
-	return reply
 }
 
 // ---------- provenance oracle ----------
@@ -982,6 +1187,13 @@ func (r *simRun) checkAllAnswered() {
 	}
 }
 
+func clipStr(s string, n int) string {
+	if len(s) > n {
+		return s[:n] + "..."
+	}
+	return s
+}
+
 func clip(b []byte) []byte {
 	if len(b) > 120 {
 		return append(append([]byte{}, b[:120]...), "..."...)
@@ -1091,6 +1303,18 @@ func (r *simRun) checkRedirects() {
 			}
 		}
 	}
+	// (c) termination: a command is sent once and re-sent at most MaxRedirects times, so a node can be asked to
+	// redirect it at most MaxRedirects+1 times
+	counts := map[string]int{}
+	for _, rec := range r.redirs {
+		counts[string(encodeCmd(rec.cmd))]++
+	}
+	for c, n := range counts {
+		if n > constant.MaxRedirects+1 {
+			r.fail("C13: %q was redirected %d times and re-sent every time, the bound is %d re-sends: redirect handling does not terminate", clip([]byte(c)), n, constant.MaxRedirects)
+			break
+		}
+	}
 	// (b) in queueing order (the recording SConn wrapper sees every EnqueueOutFrag): the first time the command is
 	// queued again after its ASK reply, it goes to a connection of the named node, directly behind ASKING
 	for _, rec := range r.redirs {
@@ -1187,7 +1411,27 @@ func (r *simRun) apply(ev string) (alive bool) {
 	defer func() {
 		if rec := recover(); rec != nil {
 			r.crashed = "panic"
-			r.fail("C12: the proxy panicked: %v", rec)
+			// the process is gone: every request in flight on every connection stays unanswered (C01), and the
+			// mechanism that was running when it died failed at its job
+			why := fmt.Sprintf("the proxy panicked on event `%s`: %v", clipStr(strings.TrimSpace(ev), 80), rec)
+			f := strings.Fields(ev)
+			if len(f) > 0 {
+				switch {
+				case f[0] == "s" && len(f) > 2 && (f[2] == "moved" || f[2] == "ask"), f[0] == "h" && len(f) > 3 && (f[3] == "moved" || f[3] == "ask"):
+					r.fail("C13: %s (while following a redirect)", why)
+				case f[0] == "s" && len(f) > 2 && (f[2] == "err" || f[2] == "big"), f[0] == "h" && len(f) > 3 && f[3] == "err":
+					r.fail("C11: %s (while relaying an error reply)", why)
+				case f[0] == "X" || f[0] == "K":
+					r.fail("C15: %s (while failing the requests of a lost connection)", why)
+				case f[0] == "E":
+					r.fail("C16: %s (while timing requests out)", why)
+				}
+			}
+			if len(r.redirs) > 0 && !strings.Contains(strings.Join(r.fails, "|"), "C13:") {
+				r.fail("C13: %s; %d redirect(s) had been followed in this trace: the redirected request never gets its final reply", why, len(r.redirs))
+			}
+			r.fail("C12: %s", why)
+			r.fail("C01: %s: requests in flight are never answered", why)
 			alive = false
 		}
 	}()
@@ -1256,12 +1500,35 @@ func (r *simRun) apply(ev string) (alive bool) {
 		if j < len(r.backends) {
 			r.backendBatch(j, k)
 		}
+	case "h":
+		// h <backend> <cut> [kind [arg]]: only the first part of the next reply arrives
+		j, _ := strconv.Atoi(f[1])
+		cut, _ := strconv.Atoi(f[2])
+		kind, arg := "ok", ""
+		if len(f) > 3 {
+			kind = f[3]
+		}
+		if len(f) > 4 {
+			arg = f[4]
+		}
+		if j < len(r.backends) {
+			r.halfEvent(j, cut, kind, arg)
+		}
+	case "f":
+		j, _ := strconv.Atoi(f[1])
+		if j < len(r.backends) {
+			r.finishHalf(j)
+		}
 	case "X":
 		j, _ := strconv.Atoi(f[1])
 		if j < len(r.backends) && !r.backends[j].closed {
 			r.refreshBackends()
 			b := r.backends[j]
 			b.closed = true
+			if b.half != nil {
+				b.half = nil
+				r.tags["lost-part-way-through-a-reply"] = true
+			}
 			// everything sent to this connection and not yet answered is lost
 			for _, cmd := range b.cmds[b.answered:] {
 				r.noteAnswered(j, cmd, "lost", nil)
@@ -1312,6 +1579,7 @@ func (r *simRun) noteProxyClosedBackends() {
 			continue
 		}
 		b.closed = true
+		b.half = nil
 		for _, cmd := range b.cmds[b.answered:] {
 			r.noteAnswered(j, cmd, "lost", nil)
 		}
